@@ -158,7 +158,24 @@ func (t *ServerTransport) handleDataRequest(w http.ResponseWriter, r *http.Reque
 
 	// If this is not a JSON-P request
 	if jsonp == "" {
-		packets, err = parser.DecodePayloads(r.Body)
+		// Content-Length can be absent (chunked transfer encoding),
+		// so never read more than the limit, whatever was declared.
+		var (
+			body    io.Reader = r.Body
+			limited *io.LimitedReader
+		)
+		if t.maxHTTPBufferSize > 0 {
+			limited = &io.LimitedReader{R: r.Body, N: t.maxHTTPBufferSize + 1}
+			body = limited
+		}
+		packets, err = parser.DecodePayloads(body)
+		if limited != nil && limited.N <= 0 {
+			w.WriteHeader(http.StatusRequestEntityTooLarge)
+			r.Close = true
+			r.Body.Close()
+			t.close(fmt.Errorf("polling: maxHTTPBufferSize (MaxBufferSize) exceeded"))
+			return
+		}
 		if err != nil {
 			w.WriteHeader(http.StatusBadRequest)
 			t.close(err)
